@@ -92,7 +92,7 @@ def _init_worker(modname, tier):
 
 
 def _run_unit(arg):
-    idx, unit = arg
+    idx, (unit, shard, nshards) = arg
     mod, tier = _MOD, _TIER
     acc = {
         "unit": idx,
@@ -111,7 +111,9 @@ def _run_unit(arg):
     try:
         first = last = None
         replay = []
-        for case in mod.cases(unit, tier):
+        for ci, case in enumerate(mod.cases(unit, tier)):
+            if ci % nshards != shard:
+                continue
             res = mod.run_case(case)
             acc["evaluations"] += 1
             acc["executions"] += res.executions
@@ -180,7 +182,10 @@ def main(modname, tier, seed, replay_path=None, jobs=None):
         return _replay(mod, replay_path)
 
     units = list(mod.units(tier))
-    order = list(enumerate(units))
+    # SHARDS: split every unit into K strided shards (case index mod K) so that
+    # a few large units do not serialise the run; the union is the same set.
+    K = int(getattr(mod, "SHARDS", 1))
+    order = list(enumerate((u, k, K) for u in units for k in range(K)))
     random.Random(seed).shuffle(order)
     jobs = jobs or int(os.environ.get("VERIF_JOBS", "0")) or min(
         16, multiprocessing.cpu_count()
